@@ -737,8 +737,13 @@ func parseNestedStatementCombination(stmtToAttachTo *tree.Statement, nestedCombo
 		Println("Nested Combo Stmt Content:", content)
 
 		stmt, errStmt := ParseStatement(oldValue[strings.Index(oldValue, LEFT_BRACE)+1 : strings.LastIndex(oldValue, RIGHT_BRACE)])
-		if errStmt.ErrorCode != tree.PARSING_NO_ERROR {
-			return stmt[0].Entry.(*tree.Statement), errStmt
+		if errStmt.ErrorCode != tree.PARSING_NO_ERROR || len(stmt) == 0 {
+			// No statement to return if parsing failed (the returned slice is empty in that case)
+			if errStmt.ErrorCode == tree.PARSING_NO_ERROR {
+				errStmt = tree.ParsingError{ErrorCode: tree.PARSING_ERROR_EMPTY_STATEMENT,
+					ErrorMessage: "Nested statement in combination could not be parsed: " + oldValue}
+			}
+			return &tree.Statement{}, errStmt
 		}
 		return stmt[0].Entry.(*tree.Statement), tree.ParsingError{ErrorCode: tree.PARSING_NO_ERROR}
 	})
